@@ -97,7 +97,13 @@ class Number(Operand):
     )
 
     def compile(self):
-        return eval(self.name.capitalize())
+        name = self.name.capitalize()
+        if name in ('True', 'False'):
+            return name == 'True'
+        try:
+            return int(name)  # Accepts leading zeros (e.g., `007`).
+        except ValueError:
+            return float(name)
 
 
 _re_ref = r'(?P<ref>[[:alpha:]_\\]+[[:alnum:]\.\_\\]*)'
